@@ -275,3 +275,112 @@ class DivideSegmentAndConnectionCounts(Contract):
         return [Case("edges", [gfa, SegObj(), factor], post, pre=pre, zh=h0, heap={gfa.oid: {}}, models=models, invariants=inv,
                      options=dict(alloc_lists=True, opaque_elems=True), symbols=dict(n_edges_listed=n, factor=factor), minimize=[n],
                      replay=lambda w: {"target": "bounded.replay_helpers:multiply_orchestration_cases"}, confirm=battery_confirm)]
+
+
+@register
+class CloneSegmentAndConnections(Contract):
+    fn = "gfapy/graph_operations/multiplication.py::Multiplication._Multiplication__clone_segment_and_connections"
+    props = ("C15",)
+    fragment = "L"
+    doc = ("one copy of the segment is made, named as requested and connected; every dovetail and containment of the segment is cloned exactly "
+           "once (an edge of the segment with itself is listed twice and cloned once); in the clone every end that was the segment is the copy "
+           "and every other end is unchanged; a named edge gets a fresh name, an unnamed one stays unnamed; each clone is connected once; the "
+           "original edges are not modified (loop invariant over the list of edges with the list of those already processed)")
+
+    def cases(self, ctx):
+        g = ctx.gfapy
+        n = z3.Int("n_edges_listed")
+        el = z3.Const("edge_at", AII)
+        j, j2, e_, c_ = z3.Int("j"), z3.Int("j2"), z3.Int("e"), z3.Int("c")
+        SEGNAME, CLONENAME, PH = z3.IntVal(-10), z3.IntVal(-11), z3.IntVal(-1)
+        base = z3.Int("first_new_object")
+        EC = g.line.edge.Link
+        edges = SList(n, el, lambda t: Ref(t, EC))
+        gfa = Obj(g.Gfa, "gfa")
+        cpy = Obj(g.line.segment.GFA1, "copy_of_segment")
+        f0 = {k: z3.Const(k + "0", AII) for k in ("from_segment", "to_segment", "name")}
+        h0 = dict(f0, L_n=z3.Const("L_n", AII), L_e=z3.Const("L_e", z3.ArraySort(I, AII)), next_list=z3.Int("next_list"),
+                  next_obj=base, origin=z3.K(I, z3.IntVal(-99)), nclones=z3.K(I, z3.IntVal(0)), connected=z3.K(I, z3.IntVal(0)), fresh_name=z3.K(I, z3.BoolVal(False)))
+        pid = h0["next_list"]
+        class SegObj:
+            def pyvc_attr(self, E, attr, st):
+                if attr == "dovetails":
+                    yield ("val", edges, st)
+                elif attr == "containments":
+                    yield ("val", SList(z3.IntVal(0), el, lambda t: Ref(t, EC)), st)
+                elif attr == "name":
+                    yield ("val", SEGNAME, st)
+                elif attr == "clone":
+                    yield ("val", _Fn0(lambda: cpy), st)
+                else:
+                    raise Unsupported("segment.%s" % attr)
+        class _Fn0:
+            def __init__(self, f):
+                self.f = f
+            def pyvc_call(self, E, pos, kw, st):
+                yield ("val", self.f(), st)
+        def m_clone(E, st, pos, kw):
+            l = pos[0]
+            zh = dict(st.zh)
+            c = zh["next_obj"]
+            for k in ("from_segment", "to_segment", "name"):
+                zh[k] = z3.Store(zh[k], c, zh[k][l.t])
+            zh["origin"] = z3.Store(zh["origin"], c, l.t)
+            zh["nclones"] = z3.Store(zh["nclones"], l.t, zh["nclones"][l.t] + 1)
+            zh["next_obj"] = c + 1
+            yield ("val", Ref(c, EC), [], st.with_zh(zh))
+        def m_connect(E, st, pos, kw):
+            o = pos[0]
+            if isinstance(o, Obj):
+                yield ("val", None, [], st.with_ghost("segment_copy_connected", int(st.ghost.get("segment_copy_connected", 0)) + 1))
+            else:
+                zh = dict(st.zh)
+                zh["connected"] = z3.Store(zh["connected"], o.t, zh["connected"][o.t] + 1)
+                yield ("val", None, [], st.with_zh(zh))
+        def m_names(E, st, pos, kw):
+            nm = fresh("new_edge_name", I)
+            yield ("val", [nm], [nm < -1000])          # a fresh name (ComputeCopyNames): not the placeholder, not the name of either segment
+        models = {ctx.fn("gfapy/line/common/cloning.py::Cloning.clone"): m_clone, ctx.fn("gfapy/line/common/connection.py::Connection.connect"): m_connect,
+                  ctx.fn("gfapy/graph_operations/multiplication.py::Multiplication._compute_copy_names"): m_names,
+                  g.is_placeholder: const_model(lambda v: S(v) == PH)}
+        # first occurrence of an edge in the list (n when it is not listed): a function of the list, introduced to avoid an existential
+        # quantifier per membership test; the two axioms below hold of the first-occurrence function of ANY list
+        fp = z3.Const("first_position_of", AII)
+        occurs = lambda e, upto: fp[e] < upto
+        def clone_ok(zh, c):
+            o = zh["origin"][c]
+            side = lambda k: zh[k][c] == z3.If(f0[k][o] == SEGNAME, CLONENAME, f0[k][o])
+            return z3.And(zh["connected"][c] == 1, side("from_segment"), side("to_segment"), (zh["name"][c] == PH) == (f0["name"][o] == PH),
+                          z3.Implies(f0["name"][o] != PH, zh["name"][c] < -1000))
+        def state_ok(st, upto):
+            zh = st.zh
+            return z3.And(zh["next_obj"] >= base,
+                          z3.ForAll([e_], z3.Implies(e_ < base, z3.And(zh["nclones"][e_] == z3.If(occurs(e_, upto), 1, 0),
+                                                                      zh["from_segment"][e_] == f0["from_segment"][e_], zh["to_segment"][e_] == f0["to_segment"][e_],
+                                                                      zh["name"][e_] == f0["name"][e_], zh["connected"][e_] == 0))),
+                          z3.ForAll([c_], z3.Implies(z3.And(base <= c_, c_ < zh["next_obj"]), z3.And(occurs(zh["origin"][c_], upto), zh["origin"][c_] < base, clone_ok(zh, c_)))),
+                          z3.ForAll([c_], z3.Implies(c_ >= zh["next_obj"], zh["connected"][c_] == 0)),          # objects not yet allocated are untouched
+                          # two clones have two different originals (so: exactly one clone per edge, with nclones)
+                          z3.ForAll([c_, e_], z3.Implies(z3.And(base <= c_, c_ < e_, e_ < zh["next_obj"]), zh["origin"][c_] != zh["origin"][e_])))
+        def inv0(i, st):
+            zh = st.zh
+            np_ = zh["L_n"][pid]
+            plist = z3.And(np_ >= 0, zh["next_list"] == h0["next_list"] + 1,
+                           z3.ForAll([j2], z3.Implies(z3.And(0 <= j2, j2 < np_), occurs(zh["L_e"][pid][j2], i))),
+                           z3.ForAll([j], z3.Implies(z3.And(0 <= j, j < i), z3.Exists([j2], z3.And(0 <= j2, j2 < np_, zh["L_e"][pid][j2] == el[j])))))
+            return z3.And(i <= n, state_ok(st, i), plist)
+        inv = {("Multiplication.__clone_segment_and_connections", 0): dict(inv=inv0, modheap=["L_n", "L_e", "from_segment", "to_segment", "name", "origin", "nclones", "connected", "next_obj"],
+                                                                            mod={"l": lambda nm: Ref(fresh(nm, I), EC), "lc": lambda nm: Ref(fresh(nm, I), EC)})}
+        def post(kd, v, st):
+            if kd != "return":
+                return z3.BoolVal(False)
+            a = st.attrs(cpy)
+            seg_ok = st.ghost.get("segment_copy_connected", 0) == 1 and is_sym(a.get("name")) and z3.is_true(z3.simplify(a["name"] == CLONENAME))
+            return z3.And(z3.BoolVal(bool(seg_ok)), state_ok(st, n))
+        pre = [n >= 0, base > 0, z3.ForAll([j], z3.Implies(z3.And(0 <= j, j < n), z3.And(0 <= el[j], el[j] < base))),
+               z3.ForAll([j], z3.Implies(z3.And(0 <= j, j < n), z3.And(0 <= fp[el[j]], fp[el[j]] <= j))),
+               z3.ForAll([e_], z3.And(0 <= fp[e_], fp[e_] <= n, z3.Implies(fp[e_] < n, el[fp[e_]] == e_))),
+               z3.ForAll([e_], z3.And(f0["name"][e_] >= -1, f0["from_segment"][e_] != CLONENAME, f0["to_segment"][e_] != CLONENAME))]
+        return [Case("edges", [gfa, SegObj(), CLONENAME], post, pre=pre, zh=h0, heap={gfa.oid: {}, cpy.oid: {}}, models=models, invariants=inv,
+                     options=dict(alloc_lists=True, opaque_elems=True), symbols=dict(n_edges_listed=n), minimize=[n],
+                     replay=lambda w: {"target": "bounded.replay_helpers:multiply_orchestration_cases"}, confirm=battery_confirm)]
